@@ -52,30 +52,31 @@ Section Chain.
   Qed.
 
   (* DOK -> COO: COO.from_iter on the dict items *)
+  Lemma from_iter_entries_any (c : coo V) :
+    canon c -> from_iter_pairs veqb add (c_shape c) (entries c) (c_fill c) = Ok c.
+  Proof.
+    intros Hc. pose proof Hc as [Hr [Hs Hl]].
+    unfold from_iter_pairs, coo_make_checked, entries. rewrite map_fst_combine, map_snd_combine by lia.
+    rewrite Hl, Nat.eqb_refl. cbn [negb orb andb].
+    replace (forallb (in_rangeb (c_shape c)) (c_coords c)) with true.
+    - cbn [negb]. f_equal. apply coo_make_canonical_id. exact Hc.
+    - symmetry. apply forallb_forall. intros x Hx. apply in_rangeb_spec. rewrite Forall_forall in Hr. auto.
+  Qed.
+
+  (* the statement as it was while 0-d keys were rejected (before fix e0a1c30): kept, with its now
+     superfluous hypothesis, for the files of other properties that import it *)
   Lemma from_iter_entries (c : coo V) :
     canon c -> (c_shape c <> [] \/ entries c = []) ->
     from_iter_pairs veqb add (c_shape c) (entries c) (c_fill c) = Ok c.
-  Proof.
-    intros Hc Hd. pose proof Hc as [Hr [Hs Hl]].
-    assert (Hmk : coo_make_checked veqb add false true false (c_shape c) (map fst (entries c)) (map snd (entries c)) (c_fill c) = Ok c).
-    { unfold coo_make_checked, entries. rewrite map_fst_combine, map_snd_combine by lia.
-      rewrite Hl, Nat.eqb_refl. cbn [negb orb andb].
-      replace (forallb (in_rangeb (c_shape c)) (c_coords c)) with true.
-      - cbn [negb]. f_equal. apply coo_make_canonical_id. exact Hc.
-      - symmetry. apply forallb_forall. intros x Hx. apply in_rangeb_spec. rewrite Forall_forall in Hr. auto. }
-    unfold from_iter_pairs. destruct (c_shape c) as [|d t] eqn:E.
-    - destruct Hd as [Hd|Hd]; [congruence|]. rewrite Hd in *. exact Hmk.
-    - destruct (entries c); exact Hmk.
-  Qed.
+  Proof. intros Hc _. apply from_iter_entries_any. exact Hc. Qed.
 
   Theorem dok_roundtrip_proof (c : coo V) :
-    canon c -> (c_shape c <> [] \/ c_coords c = []) ->
+    canon c ->
     from_iter_pairs veqb add (c_shape c) (dok_items_of_coo c) (c_fill c) = Ok c
     /\ forall ix, den (dok_as_coo (c_shape c) (dok_items_of_coo c) (c_fill c)) ix = den c ix.
   Proof.
-    intros Hc Hd. rewrite dok_items_canonical by exact Hc. split.
-    - apply from_iter_entries; [exact Hc|]. destruct Hd as [Hd|Hd]; [left; exact Hd|right].
-      unfold entries. rewrite Hd. reflexivity.
+    intros Hc. rewrite dok_items_canonical by exact Hc. split.
+    - apply from_iter_entries_any. exact Hc.
     - intros ix. rewrite dok_as_coo_entries by exact Hc. reflexivity.
   Qed.
 
@@ -134,8 +135,6 @@ Section Chain.
 
   Definition inv (c0 : coo V) (r : repr V) : Prop := exists c, same_meaning c0 c /\ image c r.
 
-  Definition is_rdok (r : repr V) : bool := match r with RDok _ _ _ => true | _ => false end.
-
   (* ---- the invariant gives the observable facts *)
   Lemma shape_okb_spec sh : shape_okb sh = true <-> shape_ok sh.
   Proof.
@@ -186,16 +185,15 @@ Section Chain.
 
   (* ---- every state converts to a canonical COO with the same meaning *)
   Lemma to_coo_inv c0 r :
-    shape_ok (c_shape c0) -> inv c0 r -> (c_shape c0 <> [] \/ is_rdok r = false) ->
+    shape_ok (c_shape c0) -> inv c0 r ->
     exists c', to_coo veqb add r = Ok c' /\ same_meaning c0 c'.
   Proof.
-    intros Hok [c [Hsm Him]] Hd. pose proof Hsm as [Hc [Hsh [Hf [Hpr Hden]]]].
+    intros Hok [c [Hsm Him]]. pose proof Hsm as [Hc [Hsh [Hf [Hpr Hden]]]].
     assert (Hokc : shape_ok (c_shape c)) by (rewrite Hsh; exact Hok).
     inversion Him; subst; cbn [to_coo].
     - exists c. split; [reflexivity|exact Hsm].
     - exists c. split; [|exact Hsm]. f_equal. apply tocoo_from_coo_proof; assumption.
-    - exists c. split; [|exact Hsm]. apply from_iter_entries; [exact Hc|].
-      destruct Hd as [Hd|Hd]; [left; rewrite Hsh; exact Hd|discriminate].
+    - exists c. split; [|exact Hsm]. apply from_iter_entries_any. exact Hc.
     - exists (from_dense veqb (todense c) (c_fill c)). split; [reflexivity|].
       destruct (from_dense_canon (todense c) (c_fill c)) as [H1 H2].
       split; [exact H1|]. split; [exact Hsh|]. split; [exact Hf|]. split; [intros _; exact H2|].
@@ -299,7 +297,7 @@ Section Chain.
   Proof.
     intros Hok Hinv Ha Hl2.
     assert (Hne : c_shape c0 <> []) by (intros E; rewrite E in Hl2; discriminate).
-    destruct (to_coo_inv c0 r Hok Hinv (or_introl Hne)) as [c' [Hto Hsm']].
+    destruct (to_coo_inv c0 r Hok Hinv) as [c' [Hto Hsm']].
     pose proof Hsm' as [Hc' [Hsh' [Hf' [Hpr' Hden']]]].
     assert (Hokc' : shape_ok (c_shape c')) by (rewrite Hsh'; exact Hok).
     assert (H2d : forall sh, length sh = 2%nat -> require_2d sh = Ok tt).
@@ -338,17 +336,15 @@ Section Chain.
   (* ---- one hop *)
   Lemma hop_inv c0 f r :
     shape_ok (c_shape c0) -> inv c0 r -> hop_okb (c_shape c0) f = true ->
-    (c_shape c0 <> [] \/ (is_rdok r = false /\ is_dok_fmt f = false)) ->
-    exists r', convert veqb add f r = Ok r' /\ inv c0 r' /\ (is_rdok r' = true -> is_dok_fmt f = true \/ is_rdok r = true).
+    exists r', convert veqb add f r = Ok r' /\ inv c0 r'.
   Proof.
-    intros Hok Hinv Hhop Hd.
-    assert (Hd' : c_shape c0 <> [] \/ is_rdok r = false) by tauto.
-    destruct (to_coo_inv c0 r Hok Hinv Hd') as [c' [Hto Hsm']].
+    intros Hok Hinv Hhop.
+    destruct (to_coo_inv c0 r Hok Hinv) as [c' [Hto Hsm']].
     pose proof Hsm' as [Hc' [Hsh' [Hf' [Hpr' Hden']]]].
     assert (Hokc' : shape_ok (c_shape c')) by (rewrite Hsh'; exact Hok).
     destruct f as [|oa| | | |]; cbn [convert].
     - (* COO *)
-      rewrite Hto. cbn [bind]. eexists. split; [reflexivity|]. split; [|discriminate].
+      rewrite Hto. cbn [bind]. eexists. split; [reflexivity|].
       exists c'. split; [exact Hsm'|constructor].
     - (* GCXS *)
       cbn [hop_okb] in Hhop. destruct (resolve_axes (c_shape c0) oa) as [ca|] eqn:Era; [|discriminate].
@@ -356,45 +352,45 @@ Section Chain.
       destruct Hinv as [c [Hsm Him]]. pose proof Hsm as [Hc [Hsh [Hf [Hpr Hden]]]].
       assert (Hokc : shape_ok (c_shape c)) by (rewrite Hsh; exact Hok).
       destruct Him as [|ca0 Hax0| |].
-      + cbn [to_gcxs to_coo bind]. rewrite Hsh, Era. cbn [bind]. eexists. split; [reflexivity|]. split; [|discriminate].
+      + cbn [to_gcxs to_coo bind]. rewrite Hsh, Era. cbn [bind]. eexists. split; [reflexivity|].
         exists c. split; [exact Hsm|]. constructor. rewrite Hsh. exact Hax.
       + cbn [to_gcxs]. destruct oa as [ca1|].
         * rewrite from_coo_shape, Hsh.
           destruct (Z.ltb_spec (Z.of_nat (length (c_shape c0))) 2) as [Hlt|Hge].
           { unfold resolve_axes in Era. destruct (Z.ltb_spec (Z.of_nat (length (c_shape c0))) 2); [discriminate|lia]. }
-          rewrite Era. cbn [bind]. eexists. split; [reflexivity|]. split; [|discriminate].
+          rewrite Era. cbn [bind]. eexists. split; [reflexivity|].
           exists c. split; [exact Hsm|].
           rewrite change_axes_image; try assumption; try (rewrite Hsh; assumption); [|rewrite Hsh; lia].
           constructor. rewrite Hsh. exact Hax.
-        * eexists. split; [reflexivity|]. split; [|discriminate].
+        * eexists. split; [reflexivity|].
           exists c. split; [exact Hsm|]. constructor. exact Hax0.
       + cbn [to_gcxs to_coo]. cbn [to_coo] in Hto. rewrite Hto. cbn [bind]. rewrite Hsh', Era. cbn [bind].
-        eexists. split; [reflexivity|]. split; [|discriminate].
+        eexists. split; [reflexivity|].
         exists c'. split; [exact Hsm'|]. constructor. rewrite Hsh'. exact Hax.
       + cbn [to_gcxs to_coo]. cbn [to_coo] in Hto. rewrite Hto. cbn [bind]. rewrite Hsh', Era. cbn [bind].
-        eexists. split; [reflexivity|]. split; [|discriminate].
+        eexists. split; [reflexivity|].
         exists c'. split; [exact Hsm'|]. constructor. rewrite Hsh'. exact Hax.
     - (* CSR *)
       cbn [hop_okb] in Hhop.
       assert (Hl2 : length (c_shape c0) = 2%nat) by (destruct (c_shape c0) as [|x [|y [|z t]]]; try discriminate; reflexivity).
       destruct (hop_cs c0 r 0 Hok Hinv (or_introl eq_refl) Hl2) as [g [Hg Hig]].
-      rewrite Hg. cbn [bind]. eexists. split; [reflexivity|]. split; [exact Hig|discriminate].
+      rewrite Hg. cbn [bind]. eexists. split; [reflexivity|exact Hig].
     - (* CSC *)
       cbn [hop_okb] in Hhop.
       assert (Hl2 : length (c_shape c0) = 2%nat) by (destruct (c_shape c0) as [|x [|y [|z t]]]; try discriminate; reflexivity).
       destruct (hop_cs c0 r 1 Hok Hinv (or_intror eq_refl) Hl2) as [g [Hg Hig]].
-      rewrite Hg. cbn [bind]. eexists. split; [reflexivity|]. split; [exact Hig|discriminate].
+      rewrite Hg. cbn [bind]. eexists. split; [reflexivity|exact Hig].
     - (* DOK *)
       destruct r as [c1|g1|sh1 it1 f1|d1 f1]; cbn [bind].
-      + rewrite Hto. cbn [bind]. eexists. split; [reflexivity|]. split; [|intros _; left; reflexivity].
+      + rewrite Hto. cbn [bind]. eexists. split; [reflexivity|].
         exists c'. split; [exact Hsm'|]. rewrite dok_items_canonical by exact Hc'. constructor.
-      + rewrite Hto. cbn [bind]. eexists. split; [reflexivity|]. split; [|intros _; left; reflexivity].
+      + rewrite Hto. cbn [bind]. eexists. split; [reflexivity|].
         exists c'. split; [exact Hsm'|]. rewrite dok_items_canonical by exact Hc'. constructor.
-      + eexists. split; [reflexivity|]. split; [exact Hinv|intros _; left; reflexivity].
-      + rewrite Hto. cbn [bind]. eexists. split; [reflexivity|]. split; [|intros _; left; reflexivity].
+      + eexists. split; [reflexivity|exact Hinv].
+      + rewrite Hto. cbn [bind]. eexists. split; [reflexivity|].
         exists c'. split; [exact Hsm'|]. rewrite dok_items_canonical by exact Hc'. constructor.
     - (* dense *)
-      eexists. split; [reflexivity|]. split; [|discriminate].
+      eexists. split; [reflexivity|].
       apply dense_image; assumption.
   Qed.
 
@@ -402,22 +398,14 @@ Section Chain.
   Lemma chain_inv c0 : forall hops r,
     shape_ok (c_shape c0) -> inv c0 r ->
     forallb (hop_okb (c_shape c0)) hops = true ->
-    (c_shape c0 <> [] \/ (is_rdok r = false /\ existsb is_dok_fmt hops = false)) ->
-    exists r', fold_left (step veqb add) hops (Ok r) = Ok r' /\ inv c0 r'
-               /\ (c_shape c0 <> [] \/ is_rdok r' = false).
+    exists r', fold_left (step veqb add) hops (Ok r) = Ok r' /\ inv c0 r'.
   Proof.
-    induction hops as [|f hs IH]; intros r Hok Hinv Hv Hd.
-    - exists r. split; [reflexivity|]. split; [exact Hinv|]. tauto.
+    induction hops as [|f hs IH]; intros r Hok Hinv Hv.
+    - exists r. split; [reflexivity|exact Hinv].
     - cbn [forallb] in Hv. apply andb_true_iff in Hv. destruct Hv as [Hf Hv].
-      assert (Hd1 : c_shape c0 <> [] \/ (is_rdok r = false /\ is_dok_fmt f = false)).
-      { destruct Hd as [Hd|[Hd1 Hd2]]; [left; exact Hd|right]. cbn [existsb] in Hd2.
-        apply orb_false_iff in Hd2. tauto. }
-      destruct (hop_inv c0 f r Hok Hinv Hf Hd1) as [r1 [Hc1 [Hi1 Hk1]]].
+      destruct (hop_inv c0 f r Hok Hinv Hf) as [r1 [Hc1 Hi1]].
       cbn [fold_left]. unfold step at 2. cbn [bind]. rewrite Hc1.
       apply IH; auto.
-      destruct Hd as [Hd|[Hd1' Hd2]]; [left; exact Hd|right]. cbn [existsb] in Hd2.
-      apply orb_false_iff in Hd2. destruct Hd2 as [Hd2 Hd3]. split; [|exact Hd3].
-      destruct (is_rdok r1) eqn:E; [|reflexivity]. destruct (Hk1 eq_refl); congruence.
   Qed.
 
   Lemma inv_start c0 : canon c0 -> inv c0 (RCoo c0).
@@ -426,20 +414,16 @@ Section Chain.
     split; [exact Hc|]. split; [reflexivity|]. split; [reflexivity|]. split; auto.
   Qed.
 
-  Theorem conversion_chain_den_partial_proof (c0 : coo V) hops :
+  (* the chain theorem: every finite history of valid conversions *)
+  Theorem conversion_chain_den_proof (c0 : coo V) hops :
     canon c0 -> shape_ok (c_shape c0) ->
     forallb (hop_okb (c_shape c0)) hops = true ->
-    dok0d_clause (c_shape c0) hops = true ->
     exists r, run_chain veqb add (RCoo c0) hops = Ok r
               /\ wf_r r = true /\ shape_r r = c_shape c0 /\ fill_r r = c_fill c0
               /\ forall ix, in_range (c_shape c0) ix -> den_r r ix = den c0 ix.
   Proof.
-    intros Hc Hok Hv Hcl.
-    assert (Hd : c_shape c0 <> [] \/ (is_rdok (RCoo c0) = false /\ existsb is_dok_fmt hops = false)).
-    { unfold dok0d_clause in Hcl. apply orb_true_iff in Hcl. destruct Hcl as [H|H].
-      - left. intros E. rewrite E in H. discriminate.
-      - right. split; [reflexivity|]. apply negb_true_iff in H. exact H. }
-    destruct (chain_inv c0 hops (RCoo c0) Hok (inv_start c0 Hc) Hv Hd) as [r [Hr [Hi _]]].
+    intros Hc Hok Hv.
+    destruct (chain_inv c0 hops (RCoo c0) Hok (inv_start c0 Hc) Hv) as [r [Hr Hi]].
     exists r. split; [exact Hr|]. apply inv_facts; assumption.
   Qed.
 
@@ -448,17 +432,12 @@ Section Chain.
   Theorem representation_independence_proof (c0 : coo V) hops :
     canon c0 -> prunedb veqb c0 = true -> shape_ok (c_shape c0) ->
     forallb (hop_okb (c_shape c0)) hops = true ->
-    dok0d_clause (c_shape c0) hops = true ->
     run_chain veqb add (RCoo c0) (hops ++ [FCoo]) = Ok (RCoo c0).
   Proof.
-    intros Hc Hp Hok Hv Hcl.
-    assert (Hd : c_shape c0 <> [] \/ (is_rdok (RCoo c0) = false /\ existsb is_dok_fmt hops = false)).
-    { unfold dok0d_clause in Hcl. apply orb_true_iff in Hcl. destruct Hcl as [H|H].
-      - left. intros E. rewrite E in H. discriminate.
-      - right. split; [reflexivity|]. apply negb_true_iff in H. exact H. }
-    destruct (chain_inv c0 hops (RCoo c0) Hok (inv_start c0 Hc) Hv Hd) as [r [Hr [Hi Hk]]].
+    intros Hc Hp Hok Hv.
+    destruct (chain_inv c0 hops (RCoo c0) Hok (inv_start c0 Hc) Hv) as [r [Hr Hi]].
     unfold run_chain. rewrite fold_left_app. unfold run_chain in Hr. rewrite Hr. cbn [fold_left step bind convert].
-    destruct (to_coo_inv c0 r Hok Hi Hk) as [c' [Hto [Hc' [Hsh' [Hf' [Hpr' Hden']]]]]].
+    destruct (to_coo_inv c0 r Hok Hi) as [c' [Hto [Hc' [Hsh' [Hf' [Hpr' Hden']]]]]].
     rewrite Hto. cbn [bind]. f_equal. f_equal.
     apply (canonical_unique V veqb veqb_eq); auto.
     intros ix Hix. apply Hden'. rewrite <- Hsh'. exact Hix.
@@ -591,21 +570,15 @@ Proof. repeat split; vm_compute; reflexivity. Qed.
 Definition ex_hops : list fmt := [FGcxs (Some [1]); FDok; FCsr; FDense; FGcxs None; FCsc; FCoo].
 
 Lemma ex_chain :
-  forallb (hop_okb (c_shape ex_c)) ex_hops = true /\ dok0d_clause (c_shape ex_c) ex_hops = true /\
+  forallb (hop_okb (c_shape ex_c)) ex_hops = true /\
   run_chain Z.eqb Z.add (RCoo ex_c) ex_hops = Ok (RCoo ex_c).
 Proof. repeat split; vm_compute; reflexivity. Qed.
 
-Lemma ex_dok : c_shape ex_c <> [] /\ from_iter_pairs Z.eqb Z.add (c_shape ex_c) (dok_items_of_coo ex_c) (c_fill ex_c) = Ok ex_c.
-Proof. split; [discriminate|reflexivity]. Qed.
+Lemma ex_dok : from_iter_pairs Z.eqb Z.add (c_shape ex_c) (dok_items_of_coo ex_c) (c_fill ex_c) = Ok ex_c.
+Proof. reflexivity. Qed.
 
-(* the chain statement without the domain clause is false of the code as it stands: a 0-d DOK that
-   holds an element cannot be converted to COO (COO.from_iter builds np.array([()]), a float array,
-   and rejects it) *)
-Lemma conversion_chain_den_refuted_proof :
-  exists (c0 : coo Z) (hops : list fmt),
-    canonical Z c0 /\ shape_ok (c_shape c0) /\ forallb (hop_okb (c_shape c0)) hops = true /\
-    run_chain Z.eqb Z.add (RCoo c0) hops = Raise ValueError.
-Proof.
-  exists (mkCOO [] [[]] [5] 0), [FDok; FCoo]. split; [apply canonicalb_spec; reflexivity|].
-  split; [constructor|]. split; reflexivity.
-Qed.
+(* a 0-d array holding its element, through DOK and back (rejected before fix e0a1c30) *)
+Definition ex_c0 : coo Z := mkCOO [] [[]] [5] 0.
+Lemma ex_chain_0d :
+  canonical Z ex_c0 /\ run_chain Z.eqb Z.add (RCoo ex_c0) [FDok; FCoo; FGcxs None; FDok; FDense; FCoo] = Ok (RCoo ex_c0).
+Proof. split; [apply canonicalb_spec; reflexivity|reflexivity]. Qed.
